@@ -12,6 +12,7 @@ import (
 	"verifharness/world"
 
 	pb "github.com/google/go-tdx-guest/proto/tdx"
+	"github.com/google/go-tdx-guest/verify"
 	"google.golang.org/protobuf/proto"
 )
 
@@ -452,6 +453,65 @@ func c01(x *mon.Ctx) {
 		}
 	}
 	x.Require("message-field-length", 0, 5*27*5, 5*27*5)
+
+	// ---- (a3) the caller edits the message IN PLACE between two verifications through one options value: the second
+	//      verdict must be the verdict of the edited message (whatever the library remembered about the slices it saw)
+	for _, s := range srcs {
+		base := mon.MessageFor("built", s.c.Quote)
+		if base == nil {
+			continue
+		}
+		cert := func(m *pb.QuoteV4) *pb.QEReportCertificationData {
+			return m.SignedData.CertificationData.QeReportCertificationData
+		}
+		type ipf struct {
+			name string
+			get  func(m *pb.QuoteV4) []byte
+			n    int
+		}
+		fields := []ipf{
+			{"pck_cert_chain", func(m *pb.QuoteV4) []byte { return cert(m).PckCertificateChainData.PckCertChain }, 48},
+			{"signature", func(m *pb.QuoteV4) []byte { return m.SignedData.Signature }, 4},
+			{"attestation_key", func(m *pb.QuoteV4) []byte { return m.SignedData.EcdsaAttestationKey }, 4},
+			{"qe_report_signature", func(m *pb.QuoteV4) []byte { return cert(m).QeReportSignature }, 4},
+			{"qe_report.report_data", func(m *pb.QuoteV4) []byte { return cert(m).QeReport.ReportData }, 4},
+			{"qe_report.mr_signer", func(m *pb.QuoteV4) []byte { return cert(m).QeReport.MrSigner }, 2},
+			{"qe_auth_data", func(m *pb.QuoteV4) []byte { return cert(m).QeAuthData.Data }, 2},
+			{"body.mr_td", func(m *pb.QuoteV4) []byte { return m.TdQuoteBody.MrTd }, 2},
+			{"body.report_data", func(m *pb.QuoteV4) []byte { return m.TdQuoteBody.ReportData }, 2},
+			{"header.user_data", func(m *pb.QuoteV4) []byte { return m.Header.UserData }, 2},
+		}
+		for _, f := range fields {
+			for k := 0; k < f.n; k++ {
+				m := proto.Clone(base).(*pb.QuoteV4)
+				b := f.get(m)
+				if len(b) == 0 {
+					continue
+				}
+				pos := (k*len(b))/f.n + (k*7)%max(1, len(b)/f.n)
+				o, _ := mon.Options(s.c)
+				var e1, e2, ef error
+				param := fmt.Sprintf("%s/%s/byte%d", s.name, f.name, pos)
+				pv, st := mon.Guard(func() {
+					e1 = verify.TdxQuote(m, o)
+					b[pos] ^= 1 << uint(k%8) // same slice, same message, same options
+					e2 = verify.TdxQuote(m, o)
+					of, _ := mon.Options(s.c)
+					ef = verify.TdxQuote(proto.Clone(m), of)
+				})
+				switch {
+				case pv != "":
+					x.Violation("in-place-edit-after-verification", param, "panic: "+pv+"\n"+st, "none", param)
+				case e1 != nil:
+					x.Broken("in-place-edit: source " + s.name + " not accepted: " + e1.Error())
+				case (e2 == nil) != (ef == nil):
+					x.Violation("in-place-edit-after-verification", param, fmt.Sprintf("after the caller flipped one bit of %s in place, the same options value judges the message accepted=%v (err=%v) while a fresh options value judges an identical copy accepted=%v (err=%v)", f.name, e2 == nil, e2, ef == nil, ef), "none", param)
+				}
+				x.Note("in-place-edit-after-verification", param, e2 == nil, false, pv == "" && e1 == nil)
+			}
+		}
+	}
+	x.Require("in-place-edit-after-verification", 0, 250, 5*74)
 
 	// ---- (c) random multi-byte mutants, reference decides
 	nm := x.Pick(3000, 200000)
